@@ -1,4 +1,5 @@
 //! `rlv` — the verification harness binary. One subcommand per engine.
+mod crash;
 mod e4;
 mod sqlrun;
 mod util;
@@ -10,6 +11,7 @@ fn main() {
     let code = match cmd {
         "sql" => sqlrun::main(&args[2..]),
         "e4" => e4::main(&args[2..]),
+        "crash" => crash::main(&args[2..]),
         _ => {
             eprintln!("usage: rlv <sql|...> [args]");
             2
